@@ -160,10 +160,10 @@ func eastAsianLineBreaksCSS3DraftSoftLineBreak(thisLastRune rune, siblingFirstRu
 	//   the space-discarding character set and it is a Unicode Punctuation (P*) or U+3000,
 	//   then the segment break is removed.
 	if util.IsSpaceDiscardingUnicodeRune(thisLastRune) ||
-		unicode.IsPunct(thisLastRune) ||
+		isEastAsianPunct(thisLastRune, thisLastRuneEastAsianWidth) ||
 		thisLastRune == '\u3000' ||
 		util.IsSpaceDiscardingUnicodeRune(siblingFirstRune) ||
-		unicode.IsPunct(siblingFirstRune) ||
+		isEastAsianPunct(siblingFirstRune, siblingFirstRuneEastAsianWidth) ||
 		siblingFirstRune == '\u3000' {
 		return false
 	}
@@ -171,6 +171,13 @@ func eastAsianLineBreaksCSS3DraftSoftLineBreak(thisLastRune rune, siblingFirstRu
 	// Rule4:
 	//   Otherwise, the segment break is converted to a space (U+0020).
 	return true
+}
+
+// isEastAsianPunct reports whether r is a Unicode punctuation whose East Asian Width is not
+// narrow or neutral. Western (narrow) punctuation such as '!' or '.' next to a segment break
+// must not remove the break, otherwise plain ASCII text is rendered differently.
+func isEastAsianPunct(r rune, eastAsianWidth string) bool {
+	return unicode.IsPunct(r) && eastAsianWidth != "Na" && eastAsianWidth != "N"
 }
 
 type withEastAsianLineBreaks struct {
